@@ -986,6 +986,12 @@ class Generator:
                 body = body[:i] + [pre] + body[j + 1:q] + [post] + body[q + 1:]
                 self.count("R6-for-desugar")
             else:
+                afterloop = ""
+                if "\n+++\n" in inv + "\n":
+                    inv, afterloop = (inv + "\n").split("\n+++\n", 1)
+                if afterloop:
+                    q = match_close_full(body, j)
+                    body = body[:q + 1] + [Tok("synthhint", "\n" + afterloop + "\n", -1, -1, body[q].line)] + body[q + 1:]
                 h = Tok("synthhint", "\n" + inv + "\n", -1, -1, body[j].line)
                 body = body[:j] + [h] + body[j:]
                 if kw == "for" and "iter" in flags:
